@@ -41,6 +41,11 @@ CHECKS = {
             "Each scenario is first run fault-free to count its fault points, then re-run once per fault index; vectors (27 operation forms) and sets (13 forms)."),
     "C10": ("exploration", "5 C10", "differential runtime monitoring: complete small-scope grid of aliased calls vs std::vector fed with a pre-copied value, plus aliased calls in random histories",
             "size x position x source index x count x spare-capacity mode x 9 call forms per configuration; exhaustive in that scope."),
+    "C13": ("exploration", "5 C13", "runtime monitoring: state-pair grid of swap2 over configuration pairs with model/ledger/canary oracles, plus swap2-heavy random histories, under ASan/UBSan",
+            "Every ordered pair of operand states (inline, heap exact, heap with room, heap cleared, adopted small buffer) x sizes for 12 (thorough 33) type pairs, "
+            "both call directions, with follow-up scripts; impossible exchanges must throw and change nothing."),
+    "C15": ("fault_enumeration", "5 C15", "fault injection + differential: every amc:: memory algorithm x length x iterator category x value category x throw index at -std=c++11/14/17/20 under ASan/UBSan",
+            "The algorithm results are compared with the standard's wording and the element ledger proves clean-up after each injected constructor fault."),
 }
 
 NA_REASON = "check not built yet in this session (engine under construction, see DESIGN.md section 5)"
